@@ -342,6 +342,16 @@ def conclude(a, cfg, tier, seed, results, native, t0):
                                       "reason": "obligation of the reference tree was not generated (%s mode)" % mode})
     if n_obl == 0 and cfg["contracts"]:
         faults.append("zero proof obligations generated")
+    # ---- the assumed contracts this run relied on, validated (bounded / exhaustive where finite) on the interpreter the
+    # library runs on: a false assumption makes the proofs meaningless here - a fault of the verification, not a violation
+    assumption_validation = run_native(["replay", "assume", json.dumps({"ids": sorted(assumptions), "tier": tier, "seed": seed}),
+                                        "validate"], wall=600)
+    if "crash" in assumption_validation or "hang" in assumption_validation:
+        faults.append("assumption validators did not run: %s" % str(assumption_validation)[:300])
+        assumption_validation = {}
+    for aid, res in sorted(assumption_validation.items()):
+        if res.get("validated") and res.get("failures"):
+            faults.append("assumed contract %s does not hold on this interpreter: %s" % (aid, res["failures"][:2]))
     # contracts with a path the executor could not analyse (unsupported construct in changed code): their canaries may be
     # dead or missing for that reason alone - reported as undecided (above), not as a fault of the checker
     partial = {r_["contract"] for r_ in results if any("unroll bound" not in u for u in r_.get("undecided_paths", []))}
@@ -486,6 +496,9 @@ def conclude(a, cfg, tier, seed, results, native, t0):
         "inlined_callees": sorted({x for r in results for x in r.get("inlined", [])}),
         "faults": faults,
         "unobservable_deviations": unobservable,
+        # every assumed contract used: validated on this interpreter (bounded / exhaustive, never part of a proof) or unchecked
+        "assumption_validation": assumption_validation,
+        "assumptions_unchecked": sorted(a for a, r_ in assumption_validation.items() if not r_.get("validated")),
     }
     ev = {"property_id": prop, "tier": tier, "seed": seed, "level": cfg["level"], "coverage": coverage,
           "assumptions": sorted(assumptions) + cfg.get("assumption_notes", []), "wall_s": round(wall, 2),
